@@ -23,7 +23,9 @@ Extensions (audit round):
    the default mask equals NUMBA_NUM_THREADS, so "restore to the maximum" was indistinguishable from
    "restore to the saved value"); long lists (24-64 entries: the configuration's queries and three
    unrelated ones, with repeats) under 2..16 threads and chunk sizes 0/1/2/5/7, so that every thread
-   really handles several queries concurrently with the others; queries / targets given as
+   really handles several queries concurrently with the others; 24 DIFFERENT queries of one length
+   (equal cost: the threads reach the same statement at the same moment, which is when state that is
+   shared between threads by mistake shows; found with a shared argsort buffer); queries / targets given as
    non-contiguous torch views (the form annotate_seqlets passes) next to numpy arrays; n_median_bins
    and n_cache off their defaults (n_cache down to its lower limit n_score_bins); odd n_score_bins;
    target sets of size 1, 2, with exact duplicates, and of 20-40 targets.
@@ -61,16 +63,25 @@ from tangermeme.tools.tomtom import tomtom
 
 SCOPE = {
     'quick': '10 seeded configurations (3-6 queries of length 1-14, always one of length 1 and one of length 10-25; 3-6 targets '
-             'of length 1-14; PWM columns one-hot, on grids 1/2, 1/4, 1/10 or continuous; n_score_bins in {20,50,100}; rc on/off; '
-             'hashing off / 100 bins) + 2 fixed one-hot configurations; per configuration: every query alone vs after a '
-             'length-19 / 6 / 1 query, twice, sandwiched (1 thread); whole list with every thread count 1..16 (n_jobs=k; thread '
-             'mask k in {1,2,7,16} with n_jobs=-1); chunk sizes 1-3; 8 permutations, 8 subsets, 8 duplications; for the '
-             'configurations with <= 4 queries every ordered sub-list (all permutations of all subsets) with 1 thread; '
-             'n_nearest = 1..n_targets; 4 annotate_seqlets configurations (8 one-hot seqlets of length 1-15, 5 motifs) x 12 '
-             'sub-lists / orders / duplications, n_nearest 1-5, n_jobs in {1,2,4,16}',
+             'of length 1-14; PWM columns one-hot, on grids 1/2, 1/4, 1/10 or continuous; n_score_bins in {20,50,100}, every other '
+             'configuration n_score_bins in {7,33,64,99,100} with n_median_bins in {2,50,317,2000} and n_cache in {n_score_bins,137,250}; '
+             'rc on/off; hashing off / 100 bins) + 5 fixed one-hot configurations (among them 1 target, 2 targets, exact duplicate '
+             'targets) + 2 configurations with 23-43 targets (reduced families); per configuration: every query alone vs after a '
+             'length-19 / 6 / 1 query, twice, sandwiched, after a different query of its length, after its prefix / extension / reverse '
+             'complement (1 thread); whole list with every thread count 1..16 (n_jobs=k; thread mask k in {1,2,7,16} with n_jobs=-1; '
+             'ambient mask m with n_jobs=k for (m,k) in (5,3),(2,7),(3,3),(16,1),(1,16), mask restored to m); chunk sizes 1-3; 4 lists '
+             'of 24-64 entries (queries of the configuration + 3 unrelated ones, repeats) under 16/2/4/3 threads, chunk sizes 0/1/2/5/7, '
+             'numpy or non-contiguous torch inputs, 2 of them also with n_nearest; 24 different queries of one length (1, 2 or 5) under '
+             '16 and 4 threads, full and n_nearest; 8 permutations, 8 subsets, 8 duplications; for the configurations with <= 4 queries '
+             'every ordered sub-list (all permutations of all subsets) with 1 thread; n_nearest = 1..n_targets (8 values for > 8 targets) '
+             'against the row of the query alone, 2 duplicated / re-ordered lists with n_nearest; field domains of every row; '
+             '4 annotate_seqlets configurations (8 one-hot seqlets of length 1-15, 5 motifs) x 12 sub-lists / orders / duplications, '
+             'n_nearest 1-5, n_jobs in {1,2,4,16}, tables with extra float / string columns and a non-default index; 2 of them x 4 '
+             'calls with no keyword at all',
     'thorough': 'same families, configurations until the time budget (about a hundred), up to 8 queries, both thread-count '
                 'mechanisms for every k in 1..16, every ordered sub-list for <= 5 queries, 20 permutations / subsets / '
-                'duplications each, n_nearest at thread counts 1, 3, 16, 24 annotate_seqlets sub-lists per configuration',
+                'duplications each, 6 long lists and 4 equal-length rounds per configuration, n_nearest at thread counts 1, 3, 16, '
+                '4 configurations with 23-43 targets, 24 annotate_seqlets sub-lists per configuration',
 }
 
 ALPH = 'ACGT'
